@@ -1,0 +1,11 @@
+//go:build !verif
+
+package model
+
+// Verification hooks are compiled out unless the "verif" build tag is set.
+
+// VerifYield is a no-op without the "verif" build tag.
+func VerifYield(string) {}
+
+// VerifWrapRoot is the identity without the "verif" build tag.
+func VerifWrapRoot(root VectorOperator, _ string, _, _, _ int64) VectorOperator { return root }
